@@ -136,10 +136,12 @@ Definition rexec (fs : afs) (r : rstate) (s : rstep) : rstate :=
 Definition reader (target : N) (ks : list nat) : list rstep := ROpen target :: map RRead ks ++ [RClose].
 
 (* ------------------------------------------------------------------ interleavings *)
-(* a schedule says who moves next (true = writer); a move of a finished actor is a no-op *)
-Fixpoint irun (sched : list bool) (w : wstate) (wp : list wstep) (r : rstate) (rp : list rstep) : wstate * rstate :=
+(* a schedule says who moves next (true = writer); a move of a finished actor is a no-op.
+   Returns the final states and what the reader still had to do. *)
+Fixpoint irun (sched : list bool) (w : wstate) (wp : list wstep) (r : rstate) (rp : list rstep)
+  : wstate * rstate * list rstep :=
   match sched with
-  | [] => (w, r)
+  | [] => (w, r, rp)
   | true :: sc =>
       match wp with
       | s :: wp' => irun sc (wexec w s) wp' r rp
